@@ -423,7 +423,7 @@ func (sf *SnowflakeProxy) makePeerConnectionFromOffer(sdp *webrtc.SessionDescrip
 			}
 			conn.bytesLogger.AddOutbound(n)
 			vhook("dc.onmsg", dc, n, len(msg.Data))
-			if n != len(msg.Data) {
+			if err == nil && n != len(msg.Data) {
 				panic("short write")
 			}
 		})
